@@ -101,7 +101,7 @@ def eval_arrangement(args):
 def run(tier, seed, open_findings):
     root = tempfile.mkdtemp(prefix='verif_c09_')
     try:
-        n = 12 if tier == 'thorough' else 3
+        n = 120 if tier == 'thorough' else 3
         jobs = [(ver, kind, seed * 100 + i, root) for ver in ('1.0', '1.1') for kind in KINDS for i in range(n)]
         refs = {ver: summary(_cls(ver)(HEADS[ver] + ''.join(decls_for(ver)) + '</xs:schema>')) for ver in ('1.0', '1.1')}
         res = pmap(eval_arrangement, jobs, chunk=1)
